@@ -213,6 +213,8 @@ func (x *c13World) apply(op string, last bool) (enabled bool) {
 		case 3:
 			fields = append(fields, ref.F16(ref.FOptions, 0))
 			s.auto = ""
+		case 4: // an any-name user who chooses the empty nickname
+			fields = []ref.Fld{ref.FS(ref.FUserName, ""), ref.F16(ref.FUserIconID, uint16(30+k))}
 		}
 		s.c.Req(ref.TSetClientUserInfo, fields...)
 		settle()
@@ -521,7 +523,7 @@ func c13Exec(shift int) func(hist []string) explore.SeqResult {
 
 func c13Alphabet() []string {
 	a := []string{"c123:0", "c123:1", "c123:2", "c15:1", "c15:2", "agree:1:0", "agree:1:5", "agree:2:0", "agree:2:6",
-		"info:0:0", "info:1:1", "info:1:2", "info:2:2", "info:1:3", "priv:1", "priv:2", "bye:0", "bye:1", "bye:2",
+		"info:0:0", "info:1:1", "info:1:2", "info:2:2", "info:1:3", "info:1:4", "priv:1", "priv:2", "bye:0", "bye:1", "bye:2",
 		"pm:0:1", "pm:1:0", "pm:1:2", "pm:2:1", "pm:0:2", "pm:2:0", "inv:0:1", "inv:1:2", "ginfo:0:1", "ginfo:1:2", "kick:0:1", "kick:0:2"}
 	return a
 }
@@ -565,7 +567,82 @@ func c13Concurrent() explore.SchedOutcome {
 	return out
 }
 
+// c13LeaveJoin: one user leaves while another logs in and fetches the user list (E-SCHED): whatever
+// the interleaving, the newcomer's roster (fetched list + notifications) must end up equal to a fresh list.
+func c13LeaveJoin() (out explore.SchedOutcome) {
+	vrt.BeginSetup()
+	wd := world.New(world.Cfg{Accounts: c13Accounts, Agreement: "agree?"})
+	defer wd.Close()
+	probe, r := wd.Connect("10.9.9.9:999", "probe", "pp", "probe")
+	b, rb := wd.Connect("10.0.0.2:2", "user", "u", "leaver")
+	if r == nil || rb == nil {
+		out.Violations = append(out.Violations, explore.SchedV{Signature: "C13/setup", Detail: "logins failed"})
+		return out
+	}
+	c := wd.Dial("10.0.0.3:3")
+	c.Handshake()
+	c.Login123("admin", "a", "joiner", 3)
+	lid := c.Send(ref.Tx{Type: ref.TGetUserNameList})
+	b.Hangup()
+	vrt.EndSetup()
+	vrt.WaitQuiet()
+	c.Poll()
+	roster := map[uint16]ref.UserInfo{}
+	seenList := false
+	for _, t := range c.Inbox {
+		switch {
+		case t.IsReply == 1 && t.ID == lid:
+			seenList = true
+			roster = map[uint16]ref.UserInfo{}
+			for _, d := range t.GetAll(ref.FUserNameWithInfo) {
+				if u, err := ref.DecodeUserInfo(d); err == nil {
+					roster[u.ID] = u
+				}
+			}
+		case t.Type == ref.TNotifyDeleteUser && seenList:
+			if d, _ := t.Get(ref.FUserID); len(d) == 2 {
+				delete(roster, uint16(d[0])<<8|uint16(d[1]))
+			}
+		case t.Type == ref.TNotifyChangeUser && seenList:
+			if d, _ := t.Get(ref.FUserID); len(d) == 2 {
+				u := ref.UserInfo{ID: uint16(d[0])<<8 | uint16(d[1]), Name: fieldStr(&t, ref.FUserName)}
+				roster[u.ID] = u
+			}
+		}
+	}
+	// notifications that overtook the list reply on the wire are applied too (a client buffers them): apply all deletes
+	for _, t := range c.Inbox {
+		if t.Type == ref.TNotifyDeleteUser {
+			if d, _ := t.Get(ref.FUserID); len(d) == 2 {
+				delete(roster, uint16(d[0])<<8|uint16(d[1]))
+			}
+		}
+	}
+	fresh := map[uint16]bool{}
+	for _, u := range wd.UserList(probe) {
+		fresh[u.ID] = true
+	}
+	var stale []string
+	for id, u := range roster {
+		if !fresh[id] {
+			stale = append(stale, fmt.Sprintf("%d/%s", id, u.Name))
+		}
+	}
+	if !seenList {
+		out.Violations = append(out.Violations, explore.SchedV{Signature: "C13/leave-join/list-request-unanswered", Detail: fmt.Sprint(c.Inbox)})
+	} else if len(stale) > 0 {
+		out.Violations = append(out.Violations, explore.SchedV{Signature: "C13/leave-join/newcomer-keeps-a-user-who-left",
+			Detail: fmt.Sprintf("the newcomer's roster still holds %v, the server's list is %v; it received %v", stale, fresh, c.Inbox)})
+	}
+	for _, p := range vrt.S.Panics() {
+		out.Violations = append(out.Violations, explore.SchedV{Signature: "C13/leave-join/panic/" + vrt.PanicSite(p), Detail: p})
+	}
+	out.Canon = fmt.Sprintf("%d %v", len(roster), stale)
+	return out
+}
+
 func runC13(w *explore.Worker) {
+	explore.ExploreSchedules(w, explore.SchedConfig{Harness: "C13leavejoin", Params: "", Bound: map[bool]int{false: 1, true: 2}[w.Thorough], FreeCost: 1, MaxSteps: 20000, Suspend: true}, c13LeaveJoin)
 	depth := 5
 	wrapDepth := 2
 	if w.Thorough {
@@ -585,7 +662,11 @@ func runC13(w *explore.Worker) {
 func replayC13(w *explore.Worker, raw json.RawMessage) {
 	var sr explore.SchedReplay
 	if json.Unmarshal(raw, &sr) == nil && sr.Kind == "schedule" {
-		_, out, err := explore.RunSchedule(sr.Choices, 20000, c13Concurrent)
+		body := c13Concurrent
+		if sr.Harness == "C13leavejoin" {
+			body = c13LeaveJoin
+		}
+		_, out, err := explore.RunSchedule(sr.Choices, 20000, body)
 		if err != nil {
 			w.Broken("replay: %v", err)
 		}
